@@ -59,6 +59,8 @@ phase = st.fixed_dictionaries({"dir": st.sampled_from(["c2s", "s2c", "both", "bo
 
 case_s = st.fixed_dictionaries({
     "proto": st.sampled_from(net.PROTOS), "mutual": st.booleans(), "depth": st.integers(1, 3), "cdepth": st.integers(1, 2),
+    # without client authentication the client may still be configured with a certificate the server never asks for
+    "offer": st.booleans(),
     "phases": st.lists(phase, min_size=1, max_size=4),
     "frag": st.lists(st.one_of(st.sampled_from([1, 5, 100, 1400, 65536]), st.integers(1, 20000)), min_size=0, max_size=3),
     "closer": st.sampled_from(["client", "server"]), "seed": st.integers(0, 1 << 30),
@@ -81,7 +83,8 @@ def session(case, ctx):
     sh = shim()
     sh.freeze_time(pki.T0)
     ch, files = _pki(proto, case["depth"] - 1, "server")
-    cfiles = _pki(proto, case["cdepth"] - 1, "client")[1] if mutual else None
+    offer = bool(case.get("offer")) and not mutual
+    cfiles = _pki(proto, case["cdepth"] - 1, "client")[1] if (mutual or offer) else None
     frag_list = case["frag"]
     total_bytes = sum(p["n"] + (p["n2"] if p["dir"] == "both" else 0) for p in case["phases"])
     # byte-sized fragments are only affordable for small transfers
@@ -96,8 +99,9 @@ def session(case, ctx):
         return frag_list[cnt[d] % len(frag_list)]
     aim = case.get("aim") == "zero-lead" and not mutual
     cs, ss = _aimed_scripts(proto, case["seed"] % 64) if aim else (b"", b"")
-    s = net.Session(ctx.variant, proto, files, client_files=cfiles, mutual=mutual, frag=frag, seed=case["seed"], client_script=cs, server_script=ss)
-    classes = [proto, "mutual" if mutual else "server-auth", "depth%d" % case["depth"], "frag" if frag_list else "nofrag", "aimed-zero-lead" if aim else "unaimed"]
+    s = net.Session(ctx.variant, proto, files, client_files=cfiles, mutual=mutual, frag=frag, seed=case["seed"], client_script=cs, server_script=ss,
+                    client_offers=offer)
+    classes = [proto, "mutual" if mutual else "server-auth+unused-client-cert" if offer else "server-auth", "depth%d" % case["depth"], "frag" if frag_list else "nofrag", "aimed-zero-lead" if aim else "unaimed"]
     try:
         rc, rs = s.start()
         ctx.check(rc[1] == "ok" and rs[1] == "ok", "endpoint set-up failed: client %s server %s" % (rc, rs), "setup")
@@ -107,8 +111,9 @@ def session(case, ctx):
             ctx.case(nontrivial=False, classes=classes + ["timeout"], ident=case)
             return
         ctx.check(hc[1] == 1 and hs[1] == 1, "%s %s handshake between honest peers failed: client ret=%s server ret=%s (chain depth %d)" %
-                  (proto, "mutual-auth" if mutual else "server-auth", hc[1], hs[1], case["depth"]),
-                  "handshake/%s/%s" % (proto, "mutual" if mutual else "server-auth"))
+                  (proto, "mutual-auth" if mutual else "server-auth, client configured with an unrequested certificate" if offer else "server-auth",
+                   hc[1], hs[1], case["depth"]),
+                  "handshake/%s/%s" % (proto, "mutual" if mutual else "server-auth+unused-client-cert" if offer else "server-auth"))
         # agreement
         pc, ps = s.client.field("protocol"), s.server.field("protocol")
         ctx.check(pc == ps and int.from_bytes(pc, "little") == net._proto_const(proto), "protocol fields differ: %s %s" % (pc.hex(), ps.hex()), "agree/protocol")
@@ -263,7 +268,7 @@ def long_connection(case, ctx):
         s.finish()
 
 
-hs_case = st.fixed_dictionaries({"proto": st.sampled_from(net.PROTOS), "mutual": st.booleans(), "seed": st.integers(0, 1 << 40)})
+hs_case = st.fixed_dictionaries({"proto": st.sampled_from(net.PROTOS), "mutual": st.booleans(), "offer": st.booleans(), "seed": st.integers(0, 1 << 40)})
 
 
 @P.sub("handshakes", hs_case, quick=2400, thorough=60000, chunk=60)
@@ -272,16 +277,18 @@ def handshakes(case, ctx):
     proto, mutual = case["proto"], case["mutual"]
     shim().freeze_time(pki.T0)
     ch, files = _pki(proto, 1, "server")
-    cfiles = _pki(proto, 0, "client")[1] if mutual else None
-    s = net.Session(ctx.variant, proto, files, client_files=cfiles, mutual=mutual, seed=case["seed"])
+    offer = bool(case.get("offer")) and not mutual
+    cfiles = _pki(proto, 0, "client")[1] if (mutual or offer) else None
+    s = net.Session(ctx.variant, proto, files, client_files=cfiles, mutual=mutual, seed=case["seed"], client_offers=offer)
+    mode = "mutual" if mutual else "server-auth+unused-client-cert" if offer else "server-auth"
     try:
         rc, rs = s.start()
         hc, hs = s.handshake()
         if hc[0] == "timeout" or hs[0] == "timeout":
             ctx.note("inconclusive-timeout"); return
-        ctx.case(nontrivial=True, classes=[proto, "mutual" if mutual else "server-auth"], ident=case, sample=case)
+        ctx.case(nontrivial=True, classes=[proto, mode], ident=case, sample=case)
         ctx.check(hc[1] == 1 and hs[1] == 1, "%s %s handshake between honest peers failed (entropy stream %d): client ret=%s server ret=%s" %
-                  (proto, "mutual-auth" if mutual else "server-auth", case["seed"], hc[1], hs[1]), "handshake/%s/%s" % (proto, "mutual" if mutual else "server-auth"))
+                  (proto, mode, case["seed"], hc[1], hs[1]), "handshake/%s/%s" % (proto, mode))
         fields = ("client_write_key", "server_write_key", "client_write_iv", "server_write_iv") if proto == "tls13" else ("master_secret", "key_block")
         for f in fields:
             ctx.check(s.client.field(f) == s.server.field(f), "%s differs between the peers" % f, "agree/" + f)
